@@ -2058,6 +2058,10 @@ func (t *Topic) anotherUserSub(sess *Session, asUid, target types.Uid, asChan bo
 			modeWant:  sub.ModeWant,
 			private:   nil,
 		}
+		if t.cat == types.TopicCatP2P {
+			// The name of a p2p topic as the target user sees it: the ID of the other participant.
+			userData.topicName = asUid.UserId()
+		}
 		t.perUser[target] = userData
 		t.computePerUserAcsUnion()
 
